@@ -17,7 +17,7 @@ META = dict(
               "polarizability, scf/spin/post-SCF density matrices as bilinear forms, run types, title/lot/basis name, "
               "restricted/ROHF/unrestricted, conventions FCHK/HORTON2/reversed+flipped, objects without orbitals or "
               "without basis); wfn, wfx (energy, virial ratios, gradient, model, keywords, core charges), molden "
-              "(title, core charges), molekel (Mulliken charges present/absent), each restricted and unrestricted; "
+              "(title, core charges), molekel (Mulliken charges present/absent), each restricted and unrestricted; Molden with pure d + Cartesian f and the reverse; WFN/WFX with Cartesian h functions; WFN with one fixed-point field filling its column; "
               "QCSchema molecule (charge, multiplicity, masses, connectivity, ghost atom, fragments, passthrough keys)",
         thorough="adds poscar with a full symbolic 3x3 cell (NRA), more sizes, width budget 2, fcidump n=3"),
     outside=["values that overflow their column", "binary cube files", "float rounding of the printed digits (values travel "
@@ -33,7 +33,7 @@ META = dict(
 
 SIZES = dict(json=[1, 3], wfn=[2], wfx=[2], molden=[2], molekel=[2], fchk=[2], xyz=[1, 3, 1000], pdb=[1, 3, 1000, 12000], mol2=[1, 3, 1000], sdf=[1, 3, 100, 999], poscar=[1, 3, 12],
              cube=[1, 2], fcidump=[1, 2])
-VARIANTS = dict(json=["full", "bare"], wfn=["full", "bare", "uhf", "unsorted"], wfx=["full", "bare", "uhf", "ecp", "unsorted"], molden=["full", "bare", "uhf", "ecp", "unsorted", "dpfc", "dcfp"], molekel=["full", "bare", "uhf", "unsorted"], fchk=["wf-own", "wf-horton2", "wf-revflip", "uhf", "rohf", "post", "corenums", "bare", "geom", "nomo", "lotblank"], xyz=["default", "columns"], pdb=["default", "full", "bonds", "star"], mol2=["default", "full", "bonds"],
+VARIANTS = dict(json=["full", "bare"], wfn=["full", "bare", "uhf", "unsorted", "hcart"], wfx=["full", "bare", "uhf", "ecp", "unsorted", "hcart"], molden=["full", "bare", "uhf", "ecp", "unsorted", "dpfc", "dcfp"], molekel=["full", "bare", "uhf", "unsorted"], fchk=["wf-own", "wf-horton2", "wf-revflip", "uhf", "rohf", "post", "corenums", "bare", "geom", "nomo", "lotblank"], xyz=["default", "columns"], pdb=["default", "full", "bonds", "star"], mol2=["default", "full", "bonds"],
                 sdf=["default", "bonds"], poscar=["lower"], cube=["111", "234", "117", "234F", "234T"], fcidump=["sym"])
 
 
@@ -47,8 +47,9 @@ def jobs(tier, prop="C02", M="harness.rt"):
                 if variant == "star" and n != 3:
                     continue
                 for policy in ("fit", "touch"):
-                    if policy == "touch" and (n > 3 or fmt in ("fcidump", "fchk", "json", "wfn", "wfx", "molden", "molekel")):
-                        continue
+                    if policy == "touch" and (n > 3 or fmt in ("fcidump", "fchk", "json", "wfx", "molden", "molekel")
+                                              or (fmt == "wfn" and variant != "full")):
+                        continue            # (WFN has fixed-point fields - coordinates, charges, occupations, orbital energies)
                     if variant == "star":
                         n = 14
                     out.append(job(prop, f"roundtrip[{fmt},{variant},n={n},{policy}]", M, "h_roundtrip",
